@@ -37,6 +37,16 @@ def scan_forbidden():
                     depth += 1; i += 2; continue
                 if txt.startswith('*)', i) and depth > 0:
                     depth -= 1; i += 2; continue
+                if depth == 0 and txt[i] == '"':
+                    # a string literal: its content is data, not vernacular ("" is an escaped quote)
+                    j = i + 1
+                    while j < len(txt):
+                        if txt[j] == '"':
+                            if txt.startswith('""', j):
+                                j += 2; continue
+                            break
+                        j += 1
+                    out.append('""'); i = j + 1; continue
                 if depth == 0:
                     out.append(txt[i])
                 i += 1
